@@ -11,6 +11,10 @@ MAP = [
  ("a8262ab", ["C05"], 6000), ("8821a41", ["C05", "C01"], 6000), ("75845c9", ["C12"], 3000), ("a1998c2", ["C12"], 6000),
  ("33ae456", ["C06"], 3000), ("246dbb4", ["C09"], 4000), ("d2c04b8", ["C11"], 8000), ("bd038fc", ["C14"], 60),
  ("eee961b", ["C20"], 400), ("30a601c", ["C20", "C11"], 600),
+ ("ee785ef", ["C08"], 4000), ("8af5a8c", ["C18"], 4000), ("80f63ee", ["C08"], 4000), ("c69dd87", ["C18"], 4000), ("a5fef3a", ["C06"], 3000),
+ ("693e888", ["C14"], 120), ("c5459e4", ["C11"], 4000), ("e67dfae", ["C02"], 4000), ("899cd68", ["C12", "C18"], 4000), ("a2a3e4f", ["C20", "C09"], 800),
+ ("69ecb2e", ["C01"], 4000), ("d26ff9f", ["C02", "C13"], 4000), ("6d75254", ["C07", "C09"], 4000), ("6af8f1c", ["C11"], 4000), ("76533b9", ["C12"], 3000),
+ ("9f3051f", ["C07"], 3000), ("1ee9d9f", ["C18"], 3000), ("5240efb", ["C11"], 3000), ("69a5ce0", ["C05"], 3000),
 ]
 only = sys.argv[1:]
 rows = []
